@@ -160,6 +160,25 @@ func Bodies(alpha []string, maxLen int, tag string) [][]Op {
 	return out
 }
 
+// Prog builds the single body spelled by codes (same letters as Bodies).
+func Prog(codes []string, tag string) []Op {
+	p := make([]Op, 0, len(codes))
+	for i, c := range codes {
+		l := fmt.Sprintf("%s%d", tag, i)
+		switch c {
+		case "C1":
+			p = append(p, Op{C: Call, Sub: build([]string{"PB", "MV", "NT"}, l+"c")})
+		case "C2":
+			p = append(p, Op{C: Call, Sub: build([]string{"PA", "MV", "FL"}, l+"c")})
+		case "C3":
+			p = append(p, Op{C: Call, Sub: build([]string{"DA", "NT"}, l+"c")})
+		default:
+			p = append(p, flatOp(c, l))
+		}
+	}
+	return p
+}
+
 // WithReads prefixes a body with the read prologue [Get a, Get b].
 func WithReads(body []Op) []Op {
 	return append([]Op{{C: Get, K: 'a'}, {C: Get, K: 'b'}}, body...)
